@@ -78,6 +78,8 @@ type FuncContract struct {
 	Views        []string          // alternative (abstract) contracts of callees this unit is verified against
 	ReadsOnly    map[string][]string // parameter name -> the only fields of its pointee the call tree may read
 	NoWrites     bool                // the call tree performs no store to non-local memory (mechanical scan)
+	WritesVia    []string            // ... except inside these functions (mechanical scan)
+	Instances    []GhostInstance     // extra instantiations of ghost-parametric assumptions
 	AtReturn     map[int][]Clause // ordinal (source order) of a return statement -> condition that must hold there
 	AtStore      map[string][]Clause // field name -> condition on the stored `value` at every store to that field
 	AtCall       map[string][]Clause // callee name -> conditions that must hold in the caller right before each call
@@ -92,6 +94,14 @@ func (fc *FuncContract) HasSpec() bool {
 }
 
 // Lemma is a pure SMT obligation: forall params. body
+// GhostInstance: clauses mentioning the ghost constant Ghost are schemas (they are proved for an
+// arbitrary value of the ghost, hence hold for every value); wherever such a clause is assumed it is
+// additionally assumed with the ghost replaced by each of the expressions, evaluated at that point.
+type GhostInstance struct {
+	Ghost string
+	Exprs []Clause
+}
+
 type Lemma struct {
 	Pkg    string
 	Name   string
@@ -163,7 +173,7 @@ func newContracts() *Contracts {
 		Ghosts: map[string]*GhostVar{}, Externs: map[string]*FuncContract{}, Writers: map[string][]string{}, Scenarios: map[string]*Scenario{}, ImportsByPkg: map[string][]string{}}
 }
 
-var kwRe = regexp.MustCompile(`^(import|define|ghost|func|extern|lemma|axiom|fact|scenario|do|establishes|writers|callers-inline|thorough-only|prefix-only|abstract|at-store|at-return|reads-only|no-writes|callback-modifies|callback-ensures|callback-requires|views|at-call|allow-extern|props|requires|ensures|modifies|nopanic|exact-conversions|trusted|inline|split|loop|assert|use|hyp|concl|timeout|bounded|opaque)\b`)
+var kwRe = regexp.MustCompile(`^(import|define|ghost|func|extern|lemma|axiom|fact|scenario|do|establishes|writers|callers-inline|thorough-only|prefix-only|abstract|at-store|at-return|reads-only|no-writes|writes-only-via|instances|callback-modifies|callback-ensures|callback-requires|views|at-call|allow-extern|props|requires|ensures|modifies|nopanic|exact-conversions|trusted|inline|split|loop|assert|use|hyp|concl|timeout|bounded|opaque)\b`)
 
 func parseExprSrc(src string) (ast.Expr, error) {
 	// ==> is written as implies(); allow `a ==> b` at top level as sugar, right-assoc
@@ -390,8 +400,29 @@ func (cs *Contracts) LoadContractFile(path string, pkgShort string) error {
 				cur.ReadsOnly = map[string][]string{}
 			}
 			cur.ReadsOnly[strings.TrimSpace(r.text[:i])] = strings.Fields(r.text[i+1:])
+		case "instances":
+			// instances GHOST: expr; expr
+			ci := strings.Index(r.text, ":")
+			if ci < 0 || cur == nil {
+				return fmt.Errorf("%s:%d: instances GHOST: expr; expr (inside a func contract)", path, r.line)
+			}
+			gi := GhostInstance{Ghost: strings.TrimSpace(r.text[:ci])}
+			for _, part := range strings.Split(r.text[ci+1:], ";") {
+				cl, err := mkClause(rawClause{"instances", strings.TrimSpace(part), r.line})
+				if err != nil {
+					return err
+				}
+				if mentionsIdent(cl.Expr, gi.Ghost) {
+					return fmt.Errorf("%s:%d: instance expression mentions the ghost %s itself", path, r.line, gi.Ghost)
+				}
+				gi.Exprs = append(gi.Exprs, cl)
+			}
+			cur.Instances = append(cur.Instances, gi)
 		case "no-writes":
 			cur.NoWrites = true
+		case "writes-only-via":
+			cur.NoWrites = true
+			cur.WritesVia = append(cur.WritesVia, strings.Fields(r.text)...)
 		case "at-return":
 			// at-return N requires EXPR
 			f := strings.SplitN(r.text, " requires ", 2)
@@ -741,4 +772,16 @@ func sortedKeys[V any](m map[string]V) []string {
 	}
 	sort.Strings(ks)
 	return ks
+}
+
+// mentionsIdent reports whether the identifier occurs in the expression.
+func mentionsIdent(e ast.Expr, name string) bool {
+	found := false
+	ast.Inspect(e, func(n ast.Node) bool {
+		if id, ok := n.(*ast.Ident); ok && id.Name == name {
+			found = true
+		}
+		return !found
+	})
+	return found
 }
